@@ -204,7 +204,14 @@ static inline mjSpec* mjg_spec(uint64_t seed, unsigned feat, int nbody) {
     for (int k = 0; k < nt; k++) {
       mjsTendon* t = mjs_addTendon(s, NULL); mjg_name(t->element, "t", ntendon++);
       int nw = 1 + mjg_int(r, 3);
-      for (int w = 0; w < nw; w++) mjs_wrapJoint(t, scalar_jnt[mjg_int(r, nscal_names)], mjg_range(r, -1, 1) + 0.2);
+      int used[8]; int nused = 0;
+      for (int w = 0; w < nw; w++) {
+        int jsel = mjg_int(r, nscal_names); double coef = mjg_range(r, -1, 1) + 0.2;
+        int dup = 0; for (int u = 0; u < nused; u++) if (used[u] == jsel) dup = 1;
+        if (dup) continue;   // a joint may appear only once in a fixed tendon (the compiler rejects repeats)
+        used[nused++] = jsel;
+        mjs_wrapJoint(t, scalar_jnt[jsel], coef);
+      }
       if ((feat & MJG_LIMIT) && mjg_chance(r, 0.5)) { t->limited = mjLIMITED_TRUE; t->range[0] = -0.5; t->range[1] = 0.5; }
       if ((feat & MJG_FRICTIONLOSS) && mjg_chance(r, 0.4)) t->frictionloss = mjg_range(r, 0.01, 0.5);
       if ((feat & MJG_SPRING) && mjg_chance(r, 0.5)) { t->stiffness[0] = mjg_range(r, 0, 10); t->damping[0] = mjg_range(r, 0, 1); }
